@@ -6,7 +6,7 @@ import vlib
 from vlib import Case, hx, unhx, parse_val
 
 PROP = "C04"
-PROOF_FILES = ["Properties/C04.v", "Properties/C04e2e.v"]
+PROOF_FILES = ["Properties/C04.v", "Properties/C04e2e.v", "Properties/C04tie.v"]
 PCR_MAX = (1 << 33) * 300
 PTS_MAX = 1 << 33
 RULE = ("PCR values 0, 2^k, 2^k+-1 (every k), base 2^k+-1 x ext {0,1,127,128,255,256,257,298,299}, every ext 0..299 on four bases, every "
